@@ -178,3 +178,88 @@ RAYGEOM = {
         'ghost_args': {'ray_ellipsoid': {'R_ELL': 'R_ELL'}, 'ray_cylinder': {'R_CYL': 'R_CYL'}, 'ray_box': {'R_BOX': 'R_BOX'}},
     },
 }
+
+
+# ellipsoid, cylinder, box (normal == NULL): the reported point lies on the surface, in the geom's own frame.
+# The frame change is abstracted: ray_map is used through the contract "lpnt[k] == LP(k), lvec[k] == LV(k)" with LP / LV UNINTERPRETED
+# functions of the component index, so these units hold for every interpretation of LP / LV; ray_map's own body is verified against the same
+# contract with LP / LV instantiated by mat' * (pnt - pos) and mat' * vec (RAY_MAP_BODY).  This keeps the degree-2 frame polynomials out
+# of the nonlinear queries.
+ABS_FRAME = {
+    'LP': "lambda k: z3.Function('ray_lp', z3.IntSort(), z3.RealSort())(z3.IntVal(k))",
+    'LV': "lambda k: z3.Function('ray_lv', z3.IntSort(), z3.RealSort())(z3.IntVal(k))",
+}
+RAY_MAP_ABS = {'params': {'pos': {'n': 3}, 'mat': {'n': 9}, 'pnt': {'n': 3}, 'vec': {'n': 3}, 'lpnt': {'n': 3}, 'lvec': {'n': 3}},
+               'assumed': True, 'requires': {}, 'assigns': ['lpnt[*]', 'lvec[*]'],
+               'ensures': {'frame_change': ' and '.join('lpnt[%d] == LP(%d) and lvec[%d] == LV(%d)' % (k, k, k, k) for k in range(3))}}
+RAY_MAP_BODY = {'__defs__': {k: CAP_DEFS[k] for k in ('DIF', 'LP', 'LV')},
+                'ray_map': dict(RAY_MAP_ABS, assumed=False, no_error=True)}
+SHAPE_DEFS = dict(dict(CAP_DEFS, **ABS_FRAME), **{
+    'absr': 'lambda v: v if v >= 0 else -v',
+    'SI': 'lambda k: 1/(size[k]*size[k])',
+    'ON_ELLIPSOID': 'lambda x: SI(0)*PT(x, 0)*PT(x, 0) + SI(1)*PT(x, 1)*PT(x, 1) + SI(2)*PT(x, 2)*PT(x, 2) == 1',
+    'ON_CYL_SIDE': 'lambda x: absr(PT(x, 2)) <= size[1] and PT(x, 0)*PT(x, 0) + PT(x, 1)*PT(x, 1) == R2',
+    'ON_CYL_CAP': 'lambda x: (PT(x, 2) == size[1] or PT(x, 2) == -size[1]) and PT(x, 0)*PT(x, 0) + PT(x, 1)*PT(x, 1) <= R2',
+    'ON_FACE': 'lambda x, i, j, k: (PT(x, i) == size[i] or PT(x, i) == -size[i]) and absr(PT(x, j)) <= size[j] and absr(PT(x, k)) <= size[k]',
+})
+_P = {'pos': {'n': 3}, 'mat': {'n': 9}, 'size': {'n': 3}, 'pnt': {'n': 3}, 'vec': {'n': 3}, 'normal': {'null': True}}
+SHAPES = {
+    '__defs__': SHAPE_DEFS, '__no_merge__': True,
+    'ray_quad': QUAD_ROOTS, 'ray_sphere': QUAD['ray_sphere'], 'ray_map': RAY_MAP_ABS, 'mju_abs': {'inline': True},
+    'ray_ellipsoid': {
+        'params': _P, 'requires': {'no_normal_requested': 'normal == NULL', 'sizes': 'size[0] > 0 and size[1] > 0 and size[2] > 0'}, 'assigns': [],
+        'ensures': {'minus_one_or_nonneg': 'result == -1 or result >= 0',
+                    'hit_point_lies_on_the_ellipsoid': 'implies(result >= 0, ON_ELLIPSOID(result))'},
+        'no_error': True},
+    'ray_cylinder': {
+        'params': _P, 'requires': {'no_normal_requested': 'normal == NULL', 'sizes': 'size[0] >= 0 and size[1] >= 0'}, 'assigns': [],
+        'ensures': {'minus_one_or_nonneg': 'result == -1 or result >= 0',
+                    'hit_point_lies_on_the_round_side_or_a_flat_cap': 'implies(result >= 0, ON_CYL_SIDE(result) or ON_CYL_CAP(result))'},
+        'loops': {0: {'unroll': 2}},
+        'no_error': True},
+    'ray_box': {
+        'params': dict(_P, all={'null': True}), 'requires': {'no_outputs_requested': 'normal == NULL and all == NULL', 'sizes': 'size[0] >= 0 and size[1] >= 0 and size[2] >= 0'}, 'assigns': [],
+        'ensures': {'minus_one_or_nonneg': 'result == -1 or result >= 0',
+                    'hit_point_lies_on_a_face': 'implies(result >= 0, ON_FACE(result, 0, 1, 2) or ON_FACE(result, 1, 0, 2) or ON_FACE(result, 2, 0, 1))'},
+        'loops': {0: {'unroll': 3}, 1: {'unroll': 2}},
+        'no_error': True},
+}
+
+
+# the capsule in the abstract frame as well (replaces the frame polynomials of the first version: same clauses, 60x faster)
+CAPSULE = {
+    '__defs__': dict(CAP_DEFS, **ABS_FRAME), '__no_merge__': True,
+    'ray_quad': QUAD_ROOTS, 'ray_sphere': QUAD['ray_sphere'], 'ray_map': RAY_MAP_ABS, 'mju_abs': {'inline': True},
+    'ray_capsule': {
+        'params': _P,
+        'requires': {'no_normal_requested': 'normal == NULL', 'sizes': 'size[0] >= 0 and size[1] >= 0'},
+        'assigns': [],
+        'ensures': {
+            'minus_one_or_nonneg': 'result == -1 or result >= 0',
+            'hit_point_lies_on_the_capsule_surface': 'implies(result >= 0, ON_SURFACE(result))',
+        }, 'no_error': True},
+}
+RAYGEOM['ray_capsule'] = CAPSULE['ray_capsule']
+
+
+# mju_rayGeom with every primitive under its proved contract (the first version named ellipsoid / cylinder / box by ghost values)
+RAYGEOM_FULL = {
+    '__defs__': dict(dict(PLANE_DEFS, **SHAPE_DEFS), **{k: CAP_DEFS[k] for k in ('DIF', 'LP', 'LV')}), '__no_merge__': True,
+    'ray_plane': PLANE['ray_plane'], 'ray_sphere': QUAD['ray_sphere'], 'ray_capsule': dict(CAPSULE['ray_capsule'], assumed=True),
+    'ray_ellipsoid': dict(SHAPES['ray_ellipsoid'], assumed=True), 'ray_cylinder': dict(SHAPES['ray_cylinder'], assumed=True), 'ray_box': dict(SHAPES['ray_box'], assumed=True),
+    'mju_rayGeom': {
+        'params': _P,
+        'requires': {'no_normal_requested': 'normal == NULL', 'sizes': 'size[0] >= 0 and size[1] >= 0 and size[2] >= 0 and implies(geomtype == mjGEOM_ELLIPSOID, size[0] > 0 and size[1] > 0 and size[2] > 0)'},
+        'assigns': [],
+        'ensures': {
+            'plane_hit_lies_in_the_plane_inside_the_rendered_rectangle': 'implies(geomtype == mjGEOM_PLANE and result >= 0, H(2) == 0 and (size[0] <= 0 or absr(H(0)) <= size[0]) and (size[1] <= 0 or absr(H(1)) <= size[1]))',
+            'sphere_hit_lies_on_the_sphere_of_radius_size0': 'implies(geomtype == mjGEOM_SPHERE and result >= 0, HP(0)*HP(0) + HP(1)*HP(1) + HP(2)*HP(2) == size[0]*size[0])',
+            'capsule_hit_lies_on_the_capsule_surface': 'implies(geomtype == mjGEOM_CAPSULE and result >= 0, ON_SURFACE(result))',
+            'ellipsoid_hit_lies_on_the_ellipsoid': 'implies(geomtype == mjGEOM_ELLIPSOID and result >= 0, ON_ELLIPSOID(result))',
+            'cylinder_hit_lies_on_the_cylinder_surface': 'implies(geomtype == mjGEOM_CYLINDER and result >= 0, ON_CYL_SIDE(result) or ON_CYL_CAP(result))',
+            'box_hit_lies_on_a_face': 'implies(geomtype == mjGEOM_BOX and result >= 0, ON_FACE(result, 0, 1, 2) or ON_FACE(result, 1, 0, 2) or ON_FACE(result, 2, 0, 1))',
+            'minus_one_or_nonneg': 'result == -1 or result >= 0',
+        },
+        'error_only_if': 'not (geomtype == mjGEOM_PLANE or geomtype == mjGEOM_SPHERE or geomtype == mjGEOM_CAPSULE or geomtype == mjGEOM_ELLIPSOID or geomtype == mjGEOM_CYLINDER or geomtype == mjGEOM_BOX)',
+    },
+}
